@@ -222,7 +222,7 @@ def loopback_cases(rng, tier):
             except Exception as e:  # noqa
                 seen = e
         out.append(('(EndToEnd (ERejected %d %d %d) %s %s)' % (t + (c_err(seen), cbool(bool(served)))),
-                    dict(kind='reject', given=t, seen=repr(seen), attrs=getattr(seen, '__dict__', None), services=len(served))))
+                    dict(scenario='reject', given=t, seen=repr(seen), attrs=getattr(seen, '__dict__', None), services=len(served))))
     # abort by the acceptor's application during a service; release by the requester (normal exit)
     for reason in ([0, 2] if tier == 'quick' else [0, 1, 2, 4, 5, 6, 200]):
         class Server2(aemod.AE):
@@ -248,7 +248,7 @@ def loopback_cases(rng, tier):
             except Exception as e:  # noqa
                 seen = e
         out.append(('(EndToEnd (EAborted 2 %d) %s false)' % (reason, c_err(seen)),
-                    dict(kind='abort-by-acceptor', reason=reason, seen=repr(seen), attrs=getattr(seen, '__dict__', None))))
+                    dict(scenario='abort-by-acceptor', reason=reason, seen=repr(seen), attrs=getattr(seen, '__dict__', None))))
     return out
 
 
@@ -274,10 +274,10 @@ def main(tier, seed):
     cov['samples'] = [obs[0][1], lb[0][1]]
     spec_set = set(failing['spec'])
     for i in failing['spec']:
-        dec.report(dict(kind='not-faithful', case=obs[i][0][:200], **obs[i][1]))
+        dec.report(dict(obs[i][1], kind='not-faithful', case=obs[i][0][:200]))
     for i in failing['corr']:
         if i not in spec_set:
-            dec.report(dict(kind='model-differs', theorem='correspondence c14_corr', case=obs[i][0][:200], **obs[i][1]),
+            dec.report(dict(obs[i][1], kind='model-differs', theorem='correspondence c14_corr', case=obs[i][0][:200]),
                        no_input=True)
     for name, out in broken:
         dec.report(dict(kind='case-file-broken', file=name, detail=out), no_input=True)
